@@ -43,7 +43,27 @@ def run(args, stdin, timeout=20):
 
 
 def run_probe(probe):
-    """probe: {args, stdin | stdin_hex, expect_stdout? , expect_rc?, expect_no_panic?}.  Returns (ok, observed)."""
+    """probe: {args, stdin | stdin_hex, expect_stdout? , expect_rc?, expect_no_panic?}
+    or {steps: [{args, stdin}...], expect: "<python expression over o = list of stdouts, rc = list of exit codes>"}.
+    Returns (ok, observed)."""
+    if "steps" in probe:
+        obs = []
+        for st in probe["steps"]:
+            stdin = bytes.fromhex(st["stdin_hex"]) if "stdin_hex" in st else st.get("stdin", "")
+            r = run(st.get("args", []), stdin)
+            if "error" in r:
+                return None, r
+            obs.append(r)
+        o = [x.get("stdout", "") for x in obs]
+        rc = [x.get("rc") for x in obs]
+        try:
+            ok = bool(eval(probe["expect"], {"o": o, "rc": rc, "len": len}))
+        except Exception as e:  # an expectation that cannot be evaluated on this output is a failed expectation
+            ok = False
+            obs.append({"expect_error": repr(e)})
+        if any(x == 101 for x in rc):
+            ok = False
+        return ok, obs
     stdin = bytes.fromhex(probe["stdin_hex"]) if "stdin_hex" in probe else probe.get("stdin", "")
     obs = run(probe.get("args", []), stdin)
     if "error" in obs:
